@@ -11,9 +11,11 @@ var Registry = map[string]func(*Ctx){
 	"C01": C01,
 	"C02": C02,
 	"C05": C05,
+	"C06": C06,
 	"C11": C11,
 	"C12": C12,
 	"C14": C14,
+	"C16": C16,
 	"C17": C17,
 }
 
